@@ -145,13 +145,14 @@ def plans_for(s, ctx, sym, quick, n_tlc, n_rand):
 
 
 # ------------------------------------------------------------------------------------------------ jobs
-def run_jobs(ctx, subjects, groups=(), parses=(), nproc=4, rec_budget=20000, timeout=900):
+def run_jobs(ctx, subjects, groups=(), parses=(), nproc=4, rec_budget=20000, timeout=1800, item_timeout=240):
     """Distribute the work over driver subprocesses (ASan+UBSan, asserts on).  A crash / sanitizer report / hang is
     attributed to the subject named in OUT.cur; the rest of that batch is resumed in a new process."""
     so = build.lib("asan")["so"]
     env = build.asan_env()
     env["PYTHONPATH"] = HERE
-    batches = [dict(so=so, rec_budget=rec_budget // nproc, subjects=[], groups=[], parses=[]) for _ in range(nproc)]
+    batches = [dict(so=so, rec_budget=rec_budget // nproc, item_timeout=item_timeout, subjects=[], groups=[], parses=[])
+               for _ in range(nproc)]
     for i, s in enumerate(subjects):
         d = dict(s); d["data"] = s["data"].hex()
         batches[i % nproc]["subjects"].append(d)
@@ -218,6 +219,24 @@ def is_eopm_case(sub, mm):
             and mm["one"]["ret"] == "STREAM_END" and mm["obs"]["ret"] == "DATA_ERROR")
 
 
+def glue_says_csize_short(sub):
+    """Independent judgement (harness/glue): the input contains an LZMA2 chunk whose LZMA data needs more than its
+    declared compressed size.  liblzma lets the LZMA decoder read past the chunk and reports afterwards, so where the
+    error is noticed depends on the input available in that call."""
+    from harness.glue import lzma2 as G2, xz as GX
+    try:
+        e = sub["entry"]
+        if e == "block_decoder":
+            return "csize_short" in G2.decode(sub["data"][sub["args"]["header_len"]:], 1 << 24).status
+        if e == "raw_decoder":
+            return sub["args"]["filters"][-1][0] == "lzma2" and "csize_short" in G2.decode(sub["data"], 1 << 24).status
+        if e in ("stream_decoder", "stream_decoder_mt", "auto_decoder"):
+            return "csize_short" in GX.parse(sub["data"]).verdict
+    except Exception:
+        return False
+    return False
+
+
 def judge(ctx, subjects, results, crashes, prefix="slice"):
     """Turn driver results into violations; returns the recorded histories for trace validation."""
     byid = {s["id"]: s for s in subjects}
@@ -230,7 +249,7 @@ def judge(ctx, subjects, results, crashes, prefix="slice"):
         if c["kind"] != "subject":
             continue
         s = byid[c["id"]]
-        what = "hang" if c["rc"] == "timeout" else "crash"
+        what = "hang" if c["rc"] in ("timeout", -14) else "crash"
         key = "%s:%s:%s" % (what, s["entry"], short_cls(s["cls"]))
         if key not in seen:
             seen.add(key)
@@ -252,6 +271,9 @@ def judge(ctx, subjects, results, crashes, prefix="slice"):
                 key = "%s:stream_decoder_mt:rejected-input:total_in" % prefix
             if s["entry"] == "microlzma_decoder" and mm["what"] == "total_in" and ":inexact" in s["cls"]:
                 key = "%s:microlzma_decoder:inexact-size:total_in" % prefix
+            if "ret" not in mm["what"].split("+") and mm["one"]["ret"] == "DATA_ERROR" and not s["cls"].startswith("valid") \
+               and glue_says_csize_short(s):
+                key = "%s:lzma2:csize-short:rejected-input" % prefix
             badkeys[json.dumps(mm["plan"], sort_keys=True)] = key
             if key in seen:
                 continue
@@ -366,6 +388,8 @@ def run(ctx):
     lz.load(L["so"])
     # (M) in the background
     cfgs = ["MCSlicingXz", "MCSlicingLzma1", "MCSlicingLzip", "MCSlicingBcj"]
+    if not quick:
+        cfgs = [c + "T" for c in cfgs]          # MaxFeed = 4, MaxGrant = 3
     neg = ["MCSlicingLzma1Recomputed", "MCSlicingBcjStrict"]
     futs = start_models(cfgs + neg, workers=1 if quick else 2)
     # (G)
@@ -374,17 +398,17 @@ def run(ctx):
     # corpus
     rng = ctx.rng
     S = []
-    S += c06corpus.xz_subjects(rng, quick, 3 if quick else 60, 6 if quick else 150)
+    S += c06corpus.xz_subjects(rng, quick, 3 if quick else 20, 6 if quick else 60)
     S += c06corpus.tests_files(rng, quick)
-    S += c06corpus.lzma1_subjects(rng, quick, 2 if quick else 24)
-    S += c06corpus.microlzma_subjects(rng, quick, 2 if quick else 12)
-    S += c06corpus.lzma2_subjects(rng, quick, 2 if quick else 30)
-    S += c06corpus.lzip_subjects(rng, quick, 2 if quick else 12)
-    S += c06corpus.block_index_subjects(rng, quick, 1 if quick else 15)
+    S += c06corpus.lzma1_subjects(rng, quick, 2 if quick else 8)
+    S += c06corpus.microlzma_subjects(rng, quick, 2 if quick else 6)
+    S += c06corpus.lzma2_subjects(rng, quick, 2 if quick else 10)
+    S += c06corpus.lzip_subjects(rng, quick, 2 if quick else 6)
+    S += c06corpus.block_index_subjects(rng, quick, 1 if quick else 6)
     S += c06corpus.encoder_subjects(rng, quick)
     for i, s in enumerate(S):
         s["id"] = i
-        s["plans"] = plans_for(s, ctx, sym, quick, 3 if quick else 25, 2 if quick else 15)
+        s["plans"] = plans_for(s, ctx, sym, quick, 3 if quick else 12, 2 if quick else 8)
     G = c06corpus.determinism_groups(rng, quick)
     for i, g in enumerate(G):
         g["id"] = i
@@ -392,8 +416,7 @@ def run(ctx):
         len(S), sum(1 for s in S if s["kind"] == "dec"), sum(1 for s in S if s["kind"] == "enc"), len(G)))
     # heavy subjects first, round-robin
     S.sort(key=lambda s: -len(s["data"]) * (3 if s["entry"].endswith("_mt") else 1))
-    results, crashes = run_jobs(ctx, S, G, nproc=4 if quick else 6, rec_budget=22000 if quick else 220000,
-                                timeout=280 if quick else 1500)
+    results, crashes = run_jobs(ctx, S, G, nproc=4 if quick else 6, rec_budget=22000 if quick else 220000)
     hists, bad_hists, BAD = judge(ctx, S, results, crashes)
     ghists = judge_groups(ctx, G, results)
     nruns = sum(r["runs"] for r in results if r["kind"] == "subject")
